@@ -4,5 +4,5 @@ SPECIFICATION MCSpec
 CONSTANTS MaxLen = 3
           BlobLens = {0, 254}
           KSet = {7, 31}
-INVARIANTS SizeOK ReadBack ExactConsumption NoStuck Canonical SelfDelimiting Complete
+INVARIANTS SizeOK ReadBack ExactConsumption NoStuck Canonical SelfDelimiting Complete FastAgree
 CHECK_DEADLOCK FALSE
